@@ -91,10 +91,14 @@ def vals_close(a_hex, b_hex, scale):
 LAST_MISMATCH_COMPONENTS = set()
 
 
+MISMATCH_IDS = set()      # cases on which Go differs from the as-is model in the last correspondence run
+
+
 def correspondence(res, cases, lines, go, model, what):
     """Go vs model on every output of every case. Returns number of mismatching cases."""
     mism = 0
     LAST_MISMATCH_COMPONENTS.clear()
+    MISMATCH_IDS.clear()
     for i, c in enumerate(cases):
         cid = lines[i].split(' ')[0]
         g, m = parse_ind(go.get(cid, 'missing')), parse_ind(model.get(cid, 'missing'))
@@ -102,6 +106,7 @@ def correspondence(res, cases, lines, go, model, what):
             if g['status'] == m['status'] == 'ok':
                 continue
             mism += 1
+            MISMATCH_IDS.add(cid)
             res.violation({'broken': 'correspondence', 'name': 'IND ' + c[0], 'config': c[1:3], 'line': lines[i][:2000],
                            'go_output': go.get(cid, 'missing')[:500], 'model_output': model.get(cid, 'missing')[:500]},
                           no_failing_input=(what != 'own-oracle'))
@@ -110,6 +115,7 @@ def correspondence(res, cases, lines, go, model, what):
         diff, nv, inex = vlib.cmp_streams(g['outs'], m['outs'], scale=scale * 1e-1)
         if diff is not None:
             mism += 1
+            MISMATCH_IDS.add(cid)
             LAST_MISMATCH_COMPONENTS.add(c[0])
             res.violation({'broken': 'correspondence', 'name': 'IND ' + c[0], 'config': {'ns': c[1], 'fs': c[2]},
                            'regime': c[4], 'first_difference': diff, 'line': lines[i][:4000]}, no_failing_input=True)
@@ -601,7 +607,7 @@ def c15_eval(res, cases, lines, go, findings, stats):
         if problem:
             f = findings.get(name)
             cond = (f or {}).get('condition', {})
-            if f and ('ns0' not in cond or (c[1] and c[1][0] == cond['ns0'])):
+            if f and ('ns0' not in cond or (c[1] and c[1][0] == cond['ns0'])) and cid not in MISMATCH_IDS:
                 stats['known'][name] += 1
                 continue
             stats['bad'] += 1
@@ -774,7 +780,8 @@ def check_c18(res, tier, replay):
                 break
         cells.add((name, tuple(c[1]), cp != 1.0, cv != 1.0, c[4]))
         if problem:
-            if name in findings:
+            ids = {lines[bi].split(' ')[0], lines[len(base) + di].split(' ')[0]}
+            if name in findings and not (ids & MISMATCH_IDS):
                 known_seen[name] += 1
                 continue
             bad += 1
